@@ -561,6 +561,18 @@ func (g *progGen) expr(t *ty, d int) string {
 			}
 			return "(" + g.typedExpr(ct, d-1) + " " + op + " " + g.expr(ct, d-1) + ")"
 		})
+		add(1, func() string {
+			// a typed operand compared with an untyped constant of another kind that is representable
+			// in the operand's type (2.0 == n, n < 1e2, 'a' != n), constant on either side
+			g.feat("compare-untyped-const")
+			ct := g.pickTy([]*ty{g.u.by["int"], g.u.by["uint8"], g.u.by["int64"], g.u.by["N"], g.u.by["float64"], g.u.by["F"], g.u.by["int8"]})
+			c := []string{"2.0", "1e2", "0.0", "'a'", "3", "100.0"}[g.n("cuc", 0, 5)]
+			op := []string{"==", "!=", "<", "<=", ">", ">="}[g.n("cop", 0, 5)]
+			if g.chance("constleft", 1, 2) {
+				return "(" + c + " " + op + " " + g.typedExpr(ct, d-1) + ")"
+			}
+			return "(" + g.typedExpr(ct, d-1) + " " + op + " " + c + ")"
+		})
 		boolOperand := func() string {
 			e := g.expr(t, d-1)
 			if g.o.Avoid["logic-untyped-bool"] && !isIdentLike(e) && !isConstBoolExpr(e) {
@@ -1317,7 +1329,28 @@ func (g *progGen) stmt(nest int) {
 		g.declare(varInfo{name, t, true})
 	case "const":
 		name := g.fresh("c")
-		switch g.n("constform", 0, 2) {
+		switch g.n("constform", 0, 4) {
+		case 3, 4:
+			// a block whose specs change between typed, untyped and implicit repetition: every
+			// implicit spec repeats the type and expression of the spec before it, nothing earlier
+			g.feat("const-block-mixed")
+			typ := []string{"uint16", "int8", "float64", "N", "Str"}[g.n("cbt", 0, 4)]
+			first := "iota"
+			if typ == "Str" {
+				first = `"a"`
+			}
+			g.line("const (")
+			g.line("\t%s %s = %s", name, typ, first)
+			g.line("\t%s", g.fresh("c"))
+			g.line("\t%s = iota", g.fresh("c"))
+			g.line("\t%s", g.fresh("c"))
+			g.line("\t%s = \"s\"", g.fresh("c"))
+			g.line("\t%s", g.fresh("c"))
+			if g.chance("cbtail", 1, 2) {
+				g.line("\t%s %s = %s", g.fresh("c"), typ, first)
+				g.line("\t%s", g.fresh("c"))
+			}
+			g.line(")")
 		case 0:
 			g.line("const %s = %d", name, g.n("cv", 0, 50))
 		case 1:
@@ -1449,9 +1482,14 @@ func (g *progGen) stmt(nest int) {
 			g.line("for %s := range %s {", vname, g.hdr(g.typedExpr(g.u.by["chan int"], d), g.u.by["chan int"]))
 			g.declare(varInfo{vname, g.u.by["int"], true})
 		case 4:
-			g.line("for %s := range %s {", kname, g.hdr(g.typedExpr(g.u.by["int"], d), g.u.by["int"]))
-			g.declare(varInfo{kname, g.u.by["int"], true})
+			// range over an integer: the iteration variable has the operand's own type
+			it := g.pickTy([]*ty{g.u.by["int"], g.u.by["int64"], g.u.by["uint8"], g.u.by["N"], g.u.by["uint"], g.u.by["int8"]})
+			g.line("for %s := range %s {", kname, g.hdr(g.typedExpr(it, d), it))
+			g.declare(varInfo{kname, it, true})
 			g.feat("range-int")
+			if it.s != "int" {
+				g.feat("range-typed-int")
+			}
 		case 5:
 			g.line("for range %s {", g.hdr(g.typedExpr(g.u.by["[]string"], d), g.u.by["[]string"]))
 		case 6:
